@@ -768,6 +768,8 @@ fn run_section_isolated(prop: &'static str, sec: &Section, tier: Tier, seed: u64
         let child = std::process::Command::new(&exe)
             .args(["shard", prop, sec.name, if tier == Tier::Quick { "quick" } else { "thorough" }, &seed.to_string(), &shard.to_string()])
             .env("DSVERIF_CUR_FILE", &cur)
+            // generated scripts run with the scratch directory as working directory
+            .current_dir(&dir)
             .stdin(std::process::Stdio::null())
             .stdout(std::process::Stdio::piped())
             .stderr(std::process::Stdio::piped())
